@@ -43,6 +43,10 @@ PoolCall == <<
   \* [null]
   Arr(<<Null>>),
   \* "\u00e9"
-  Str(<<233>>)
+  Str(<<233>>),
+  \* "NaN"
+  Str(<<78, 97, 78>>),
+  \* "Infinity"
+  Str(<<73, 110, 102, 105, 110, 105, 116, 121>>)
 >>
 ====
